@@ -180,4 +180,17 @@ end
 local definition's hash -/
 def versionRefused (hdrVersion localHash : Nat) : Bool := hdrVersion != 0 && hdrVersion != localHash
 
+/-- how `Message.from_json` ends once the header segment is decoded and the message class is found -/
+inductive MsgOutcome
+  | refused     -- `InvalidMessageDefinition`
+  | decoded     -- a `Message` comes back
+  | failed      -- any other exception (`KeyError` for a missing "data", `JSONDecodingError` from `from_dict`)
+  deriving DecidableEq, Repr
+
+/-- the **order** of `Message.from_json`: header, class lookup, *then the version check, then the data segment*.
+`dataOk`: looking up `d["data"]` and `from_dict` on it succeed.  Nothing about the class enters - in particular not
+whether it has any fields (signals have none) - and the data segment is not looked at before the version is. -/
+def msgFromJson (hdrVersion localHash : Nat) (dataOk : Bool) : MsgOutcome :=
+  if versionRefused hdrVersion localHash then .refused else if dataOk then .decoded else .failed
+
 end Pyrtma.Serial
